@@ -24,6 +24,8 @@ pub enum Fault {
     DropChunk(usize, usize),
     DupChunk(usize, usize),
     Rewrite(String),
+    /// text added after (true) or before (false) an otherwise intact document
+    Junk(bool, String),
 }
 
 #[derive(Serialize, Deserialize, Clone, Debug)]
@@ -64,6 +66,9 @@ pub const REWRITES: &[&str] = &[
     "move-primary-to-extra", "move-primary-to-build", "move-secondary-to-core", "move-secondary-to-build", "dup-primary", "dup-secondary",
     "swap-major-minor", "unknown-ts", "empty-all", "add-str-build", "dup-context", "patch-before-major", "epoch-in-build", "ts-in-core-ok",
     "swap-minor-patch", "rotate-primaries", "dup-minor-only", "post-in-core", "dev-in-build", "major-last-in-build",
+    "unknown-ts:core", "unknown-ts:extra_core", "unknown-ts:build", "empty-ts:extra_core", "combined-ts:extra_core", "combined-ts:core",
+    "dup-context:core", "dup-context:extra_core", "str-in:core", "str-in:extra_core", "uint-in:extra_core", "custom-in:core", "custom-in:extra_core",
+    "dup-primary-apart", "dup-secondary-apart",
 ];
 
 fn hostile_none_argv(r: &mut Rng) -> Vec<String> {
@@ -124,7 +129,7 @@ fn hostile_none_argv(r: &mut Rng) -> Vec<String> {
         }
         2 if sub == "version" => {
             let rons = [
-                &argvgen::SCHEMA_RONS[..6],
+                &argvgen::SCHEMA_RONS[..],
                 &["(core:[str(\"a\\\"b\"),str(\"\\\\\"),str(\"\\n\"),uint(0)],extra_core:[var(Epoch),var(Dev)],build:[var(custom(\"a.b\")),var(custom(\"k\")),str(\"日本\")])"][..],
                 &["(core:[var(Major),var(Minor),var(Patch)],extra_core:[var(PreRelease),var(Post),var(Dev),var(Epoch)],build:[var(BumpedTimestamp),var(LastTimestamp),var(Dirty),var(LastCommitHashShort),var(ts(\"%Y%j\"))])"][..],
             ]
@@ -184,6 +189,10 @@ pub fn generate(r: &mut Rng, tier: Tier, _group: u64) -> serde_json::Value {
             7 => Fault::DupChunk(r.below(1_000_000) as usize, 1 + r.below(40) as usize),
             _ => Fault::Rewrite(r.pick(REWRITES).to_string()),
         });
+    }
+    for _ in 0..2 {
+        let junk = *r.pick(&["garbage", ")", ",", "()", "x", "\n(\n)\n", "// a trailing comment\n", "/* block */", "#![enable(implicit_some)]", "\u{feff}", "\0", "<<DOC>>", " \n\t "]);
+        faults.push(Fault::Junk(r.chance(3, 4), junk.to_string()));
     }
     // a few always-present truncations: everything but the last byte, the last two, half
     faults.push(Fault::Truncate(1_000_001));
@@ -311,6 +320,41 @@ pub fn rewrite(doc: &str, kind: &str) -> Option<String> {
         "unknown-ts" => {
             let at = open_section(&mut lines, "build")?;
             lines.insert(at, format!("{comp_indent}var(ts(\"QQ\")),"));
+        }
+        k if k.contains(':') => {
+            // <what>:<section> – one component inserted into the named section
+            let (what, sec_name) = k.split_once(':')?;
+            let comp = match what {
+                "unknown-ts" => "var(ts(\"BOGUS\"))",
+                "empty-ts" => "var(ts(\"\"))",
+                "combined-ts" => "var(ts(\"YYYYMMDD\"))",
+                "dup-context" => "var(Distance)",
+                "str-in" => "str(\"lit\")",
+                "uint-in" => "uint(7)",
+                "custom-in" => "var(custom(\"a.b\"))",
+                _ => return None,
+            };
+            let at = open_section(&mut lines, sec_name)?;
+            lines.insert(at, format!("{comp_indent}{comp},"));
+            if what == "dup-context" {
+                let (_, e) = section_bounds(&lines, sec_name)?;
+                lines.insert(e, format!("{comp_indent}{comp},"));
+            }
+        }
+        "dup-primary-apart" => {
+            // the duplicate is separated from the original by another component
+            let i = find_in(&lines, "core", &prim)?;
+            let l = lines[i].clone();
+            let (_, e) = section_bounds(&lines, "core")?;
+            lines.insert(e, format!("{comp_indent}str(\"sep\"),"));
+            lines.insert(e + 1, l);
+        }
+        "dup-secondary-apart" => {
+            let i = find_in(&lines, "extra_core", &sec)?;
+            let l = lines[i].clone();
+            let (_, e) = section_bounds(&lines, "extra_core")?;
+            lines.insert(e, format!("{comp_indent}str(\"sep\"),"));
+            lines.insert(e + 1, l);
         }
         "ts-in-core-ok" => {
             let at = open_section(&mut lines, "core")?;
@@ -609,7 +653,7 @@ pub fn execute(ctx: &Ctx, scv: &serde_json::Value, rd: &RunDir, stats: &mut Stat
                     ));
                 }
             }
-            Fault::BitFlip(..) | Fault::DropChunk(..) | Fault::DupChunk(..) | Fault::Rewrite(_) => {
+            Fault::BitFlip(..) | Fault::DropChunk(..) | Fault::DupChunk(..) | Fault::Rewrite(_) | Fault::Junk(..) => {
                 let (damaged, label): (Vec<u8>, String) = match f {
                     Fault::BitFlip(pos, bit) => {
                         let mut d = doc.clone();
@@ -630,6 +674,18 @@ pub fn execute(ctx: &Ctx, scv: &serde_json::Value, rd: &RunDir, stats: &mut Stat
                         let mut d = doc[..e].to_vec();
                         d.extend_from_slice(&doc[i..]);
                         (d, "dup".into())
+                    }
+                    Fault::Junk(after, junk) => {
+                        let mut d = vec![];
+                        let j: Vec<u8> = if junk == "<<DOC>>" { doc.clone() } else { junk.as_bytes().to_vec() };
+                        if *after {
+                            d.extend_from_slice(&doc);
+                            d.extend_from_slice(&j);
+                        } else {
+                            d.extend_from_slice(&j);
+                            d.extend_from_slice(&doc);
+                        }
+                        (d, format!("junk:{}:{}", if *after { "after" } else { "before" }, junk.escape_default()))
                     }
                     Fault::Rewrite(kind) => match rewrite(&doc_s, kind) {
                         Some(s) => (s.into_bytes(), format!("rewrite:{kind}")),
@@ -660,7 +716,11 @@ pub fn execute(ctx: &Ctx, scv: &serde_json::Value, rd: &RunDir, stats: &mut Stat
                         if errs.is_empty() { None } else { Some(format!("placement: {errs:?}")) }
                     }
                     Err(e) => {
-                        if !generic_ok && std::str::from_utf8(&damaged).is_ok() && label.starts_with("rewrite") {
+                        if label.starts_with("junk:") && std::str::from_utf8(&damaged).is_ok() {
+                            // the document part is intact, so the independent reader's refusal can only be
+                            // about the added text: not valid RON as a whole
+                            Some(format!("not valid RON: {e}"))
+                        } else if !generic_ok && std::str::from_utf8(&damaged).is_ok() && label.starts_with("rewrite") {
                             Some(format!("not valid RON: {e}"))
                         } else {
                             None
